@@ -81,6 +81,32 @@ def c05(tier):
 def _exists(f):
     import os
     return os.path.exists(os.path.join(vlib.COQ, "theories", f)) or os.path.exists(os.path.join(vlib.COQ, "gen", f))
+def c10(tier):
+    vlib.standard(
+        "C10", tier, "c10", ["Properties_C10.v", "Proofs_Expr.v", "Proofs_BoolSimp.v", "Proofs_Rewrites.v"],
+        assume=[
+            "integers are unbounded (Z): the property allows integer reasoning to assume no overflow; the differential oracle keeps unsigned operands away from wrap-around",
+            "float64 is modelled as NaN | +-Inf | rational: ordering and NaN behaviour are exact, rounding is not modelled (every model witness is replayed on compiled Go by the oracle)",
+            "opaque calls are deterministic functions of their arguments and of the history of earlier calls; they do not panic",
+            "the model evaluates operands strictly left to right; the Go spec leaves the order between a panicking index/division and function calls of the same expression open, so the differential oracle treats two panicking runs as equal whatever calls preceded the panic",
+            "go/printer is modelled for single-line expressions of the fragment (Ident, BasicLit, Paren, Unary, Binary, Call, Index)",
+        ],
+        trusted=["converter go/ast+go/types -> Model_Expr terms (harness/internal/exprgen/conv.go); typeof of every converted root is re-checked in Coq",
+                 "go/parser, go/types, go/printer, astutil.Apply, typep.SideEffectFree, ruleguard/gogrep engine: modelled or monitored, not verified",
+                 "Go toolchain used to compile and run the differential programs"])
+
+
+def c12(tier):
+    vlib.standard(
+        "C12", tier, "c12", ["Properties_C12.v", "Proofs_Claims.v", "Proofs_Expr.v"],
+        assume=[
+            "same expression semantics as C10 (Z integers, NaN/Inf/rational floats, opaque calls as deterministic functions of the call history)",
+            "type switches: the dynamic content of the interface value is nil or a value of a concrete type; types.Implements enters as a table whose transitivity is re-checked in Coq for every generated lattice",
+            "named constants and the nilValReturn / dupArg checkers are outside the modelled fragment (monitored by nothing in this check)",
+        ],
+        trusted=["converter go/ast+go/types -> Model_Expr terms; type-switch entries + types.Implements table -> Model_Claims terms",
+                 "go/types (constant values, Implements), ruleguard/gogrep engine for sloppyLen and offBy1: modelled, not verified",
+                 "Go toolchain used to compile and run the instrumented programs"])
 
 
 def c16(tier):
